@@ -92,6 +92,15 @@ func VerifC08Atomic() {
 			zz.Reach("append-without-prefix")
 		}
 	}
+	if op == "writereader" && zz.Bool("stale_part_from_an_interrupted_longer_transfer") {
+		// an earlier transfer to the same key died mid-stream and left a staging file
+		// that is LONGER than what is written now
+		if err := b.WriteReader(ctx, key+".x", bytes.NewReader(nil), 0); err != nil { // ensure dir exists
+			panic(err)
+		}
+		zz.FSWriteFile(final+".part", zz.Bytes("stale_part", 5))
+		zz.Reach("stale-part")
+	}
 	// the source of a streamed write may fail after any number of bytes, with a reset or with
 	// an error that wraps io.EOF (a peer that closed the connection cleanly mid-body)
 	failing := op == "writereader" && zz.Bool("source_fails")
